@@ -29,6 +29,9 @@ pub async fn run_swarm_worker(
     server_start_instant: ServerStartInstant,
     worker_index: usize,
 ) -> anyhow::Result<()> {
+    #[cfg(feature = "verif")]
+    aquatic_common::verif_fault!("http.swarm.start");
+
     let (_, mut request_receivers) = request_mesh_builder
         .join(Role::Consumer)
         .await
@@ -107,6 +110,9 @@ async fn handle_request_stream<S>(
     let mut rng: SmallRng = make_rng();
 
     while let Some(channel_request) = stream.next().await {
+        #[cfg(feature = "verif")]
+        aquatic_common::verif_fault_basic!("http.swarm.request");
+
         match channel_request {
             ChannelRequest::Announce {
                 request,
